@@ -88,6 +88,9 @@ class LfAdapter(Adapter):
         ctx.aln, ctx.mp, ctx.susp, ctx.cm = 1, 1, False, None
         ctx.lenA = 1
         ctx.lf.set_param_rule("length", edge="a", value=LEN_A[1])
+        # bounds that contain the tree's lengths of b (0.2) and c (0.3): they change no value; RefusedRule uses them
+        ctx.lf.set_param_rule("length", edge="b", lower=0.15, upper=0.25)
+        ctx.lf.set_param_rule("length", edge="c", lower=0.25)
         return ctx
 
     def apply(self, ctx, act, args):
@@ -121,6 +124,15 @@ class LfAdapter(Adapter):
         elif act == "SetLen":
             lf.set_param_rule("length", edge="a", value=LEN_A[args[0]])  # by value, still a free parameter
             ctx.lenA = args[0]
+        elif act == "RefusedRule":
+            # two rules over the scopes {b, c}, each refused on ONE of them ("Bounds: upper < lower") while the other scope
+            # would be clipped: whichever scope the code visits first, one of the two calls meets the refusal second
+            for kw in ({"upper": 0.18}, {"lower": 0.35}):
+                try:
+                    lf.set_param_rule("length", edges=["b", "c"], is_independent=True, **kw)
+                    ctx.calc_anom = "rule-with-impossible-bounds-was-accepted"
+                except ValueError as ex:
+                    ctx.last_exc = repr(ex)
         elif act == "SetBadAln":
             lf.set_alignment(fx["aln"][0])  # postponed: nothing is evaluated yet
             ctx.aln = 0
